@@ -1261,3 +1261,7 @@ impl InstrFormat for TimelineFormat08 {
         Ok(())
     }
 }
+
+#[cfg(kani)]
+#[path = "/verif/contracts/kani/ecl_06.rs"]
+mod verif_kani;
